@@ -140,6 +140,9 @@ class Effects:
                 tg = self._target(body, o, c.args[0]) if c.args else None
                 out.add("notify:%s@%s" % (last, tg or "?"))
                 continue
+            if nm.endswith(("time::timeout", "time::timeout_at", "time::sleep", "time::sleep_until", "time::interval", "time::interval_at")):
+                out.add("time:%s" % last)       # a deadline / periodic wake-up: a new way for this code to give up or act on its own
+                continue
             if not c.args:
                 continue
             if ("RwLock" in nm or "Mutex" in nm) and last in ("write", "lock", "try_write", "try_lock", "blocking_write", "blocking_lock", "read", "try_read"):
@@ -168,6 +171,25 @@ class Effects:
                 if tg and not tg.startswith(("io<", "chan<")):
                     out.add("mut:%s@%s" % (last, tg))
                 continue
+        # process-wide state the region refers to at all (a static read is how per-object state silently becomes shared)
+        for bi in sorted(body.reachable()):
+            if region is not None and bi not in region:
+                continue
+            blk = body.blocks[bi]
+            ops = []
+            for st in blk["stmts"]:
+                if st["s"] == "assign":
+                    rv = st["rv"]
+                    for k in ("op", "a", "b"):
+                        if isinstance(rv.get(k), dict):
+                            ops.append(rv[k])
+                    ops += rv.get("ops", [])
+            t = blk["term"]
+            if t["t"] == "call":
+                ops += t["args"]
+            for op in ops:
+                if isinstance(op, dict) and op.get("o") == "const" and "static" in op.get("c", {}):
+                    out.add("static:%s" % str(op["c"]["static"]).split("::")[-1])
         # stores through guards / self fields
         from .common import stores_through
         for bi, line, base, val, place in stores_through(body, o):
@@ -346,11 +368,11 @@ PROPERTY_REGIONS = {
     "C13": (("client::client::Client::create_stream", "client::client::Client::create_new_session", "client::client::Client::create_proxy_stream", "client::session_pool::SessionPool::get_idle_session",
              "client::session_pool::SessionPool::add_idle_session"), (), ("client::session_pool::SessionPool::get_idle_session", "client::session_pool::SessionPool::add_idle_session", SS + "close",
                                                                          "client::client::Client::create_new_session")),
-    "C14": ((SS + "start_client", SS + "close"), ("HeartRequest", "HeartResponse"), (SS + "close",)),
+    "C14": ((SS + "start_client", SS + "close", SS + "recv_loop", SS + "process_stream_data"), ("HeartRequest", "HeartResponse"), (SS + "close",)),
     "C15": (("client::udp_client::", "server::udp_proxy::"), (), ()),
     "C16": (("client::socks5::",), (), ()),
     "C17": (("client::http_proxy::",), (), ()),
-    "C18": (("util::cert_reloader::", "server::server::Server::listen"), (), ("util::cert_reloader::CertReloader::reload",)),
+    "C18": (("util::cert_reloader::", "server::server::Server::listen", "util::tls::"), (), ("util::cert_reloader::CertReloader::reload",)),
     "C19": (("padding::factory::PaddingFactory::update_default", "padding::factory::PaddingFactory::default", "padding::factory::PaddingFactory::pushed", "padding::factory::PaddingFactory::new",
              "client::client::Client::create_new_session"), ("UpdatePaddingScheme", "Settings", "ServerSettings"), ("padding::factory::PaddingFactory::update_default",)),
     "C20": ((SS + "recv_loop", SS + "handle_frame"), ("Waste", "Syn", "Push", "Fin", "Settings", "Alert", "UpdatePaddingScheme", "SynAck", "HeartRequest", "HeartResponse", "ServerSettings"), ()),
